@@ -42,7 +42,7 @@ def norm(v):
     return v
 
 
-OPS = ['map', 'starmap', 'filter', 'scan', 'scan_reduce', 'cmap', 'starmap_te']
+OPS = ['map', 'starmap', 'filter', 'scan', 'scan_reduce', 'cmap', 'starmap_te', 'scan_f']
 HANDLERS = ['ignore', 'map', 'router', 'none']
 TAILS = ['nothing', 'to_list', 'scan', 'count']
 
@@ -90,6 +90,14 @@ def failing_op(op):
         # Python frame below the operator's own
         import operator
         return rx.pipe(rs.ops.map(lambda i: None if i[2] else i[1]), rs.ops.map(operator.neg))
+
+    if op == 'scan_f':
+        # the seed is given as the factory `int`; the running value becomes a float and grows past 2**63
+        def accf(a, i):
+            if i[2]:
+                raise boom(i[3])
+            return (a + i[1] + 0.5) + (2.0 ** 62 if i[1] == 5 else 0)
+        return rs.ops.scan(accf, int)
 
     def acc(a, i):
         if i[2]:
@@ -142,6 +150,9 @@ def ref_op_outputs(op, items):
             outs.append([-it[1]])
         elif op == 'scan_reduce':
             outs.append([])
+        elif op == 'scan_f':
+            a = (a + it[1] + 0.5) + (2.0 ** 62 if it[1] == 5 else 0)
+            outs.append([a])
         else:
             a = a + it[1]
             outs.append([a])
